@@ -14,8 +14,9 @@ MARK = "@@VF "
 class Emitter:
     """What a monitor uses to report what it observed. Counters/distinct keys are batched."""
 
-    def __init__(self, stream=None):
+    def __init__(self, stream=None, spec=None):
         self.stream = stream or sys.stdout
+        self.spec = spec
         self.counters = collections.Counter()
         self.distinct = set()
         self.sets = collections.defaultdict(set)
@@ -47,9 +48,9 @@ class Emitter:
         self.nviol[key] += 1
         self.counters["violations_raw"] += 1
         if self.nviol[key] <= 6:  # keep a few witnesses per mechanism per shard
-            self._w({"t": "violation", "mech": mech, "witness": witness, "desc": desc})
+            self._w({"t": "violation", "mech": mech, "witness": witness, "desc": desc, "shard_spec": self.spec})
         else:
-            self._w({"t": "violation", "mech": mech, "witness": {"elided": True}, "desc": desc[:200]})
+            self._w({"t": "violation", "mech": mech, "witness": {"elided": True}, "desc": desc[:200], "shard_spec": self.spec})
 
     def inconclusive(self, reason):
         self._w({"t": "inconclusive", "reason": reason})
@@ -108,7 +109,7 @@ def main():
     spec = json.loads(sys.argv[2])
     warnings.simplefilter("ignore")
     setup_einx_path()
-    out = Emitter()
+    out = Emitter(spec=spec)
     check = importlib.import_module(f"vf.checks.{pid.lower()}")
     if getattr(check, "PRE_IMPORT", None):
         check.PRE_IMPORT(spec)
